@@ -1,7 +1,7 @@
 #!/bin/bash
 # C03 is built against a copy of package encoding/mvt whose map ranges are owned by the harness (overlay only).
 set -e
-cd /verif
+cd "$(dirname "$(readlink -f "$0")")/../.."
 go build -o .work/bin/instr ./tools/instr
 .work/bin/instr -out .work/c03 -maprange encoding/mvt 2>.work/c03.instr.log || { cat .work/c03.instr.log; exit 1; }
 go build -tags verif -overlay .work/c03/overlay.json -o "$1" ./checks/c03
